@@ -12,8 +12,7 @@ sys.path.insert(0, str(VERIF))
 NOT_BUILT_REASON = "not claimed yet: model, theorems and correspondence harness for this property are still being built (no technical obstacle; see DESIGN.md §5)"
 NOT_APPLICABLE = {}
 # built but temporarily not claimed (being adapted to a change merged from another property)
-PENDING = {"C05": "temporarily not claimed: the check is being adapted to the repaired integer coercer of const.py (F06a); see design/C05.md",
-           "C08": "temporarily not claimed: the type-table translator is being extended for the repaired integer coercer of const.py (F06a); see design/C08.md"}  # property -> reason, for properties the technique genuinely cannot decide
+PENDING = {}
 
 
 def main() -> None:
